@@ -11,9 +11,9 @@ RTyped(m) == [kind |-> "typed", d |-> "Stop", m |-> m]
 Retry(n, t)      == [set |-> TRUE, max |-> n, timeout |-> t]
 Backoff(i, m, r) == [set |-> TRUE, initial |-> i, max |-> m, reset |-> r]
 
-Q_Rules   == {RDefault, RAny("Resume"), RTyped(<< <<"ErrA", "Restart">> >>),
+Q_Rules   == {RAny("Resume"),
               RTyped(<< <<"ErrA", "Resume">>, <<"ErrB", "Escalate">>, <<"PanicError", "Restart">> >>)}
-Q_Retries == {NoRetry, Retry(3, 1000)}
+Q_Retries == {NoRetry, Retry(3, 1000), Retry(0, 500)}
 Q_Backoff == {NoBackoff, Backoff(100, 1000, 5000)}
 Q_Sup     == {NoSup} \cup {Sup(st, r, rt, b) : st \in Strategies, r \in Q_Rules, rt \in Q_Retries, b \in Q_Backoff}
 Q_Pass    == {NoPass, TimeBased(30000), CountBased(10), LongLived}
@@ -24,8 +24,8 @@ Q_Role    == {[set |-> FALSE, v |-> ""], [set |-> TRUE, v |-> "payments"]}
 Q_Deps    == {<<>>, <<"d1", "d2">>}
 Q_Init    == {0, 3000}
 
-T_Rules   == Q_Rules \cup {RAny("Escalate"), RTyped(<< <<"PanicNilError", "Stop">>, <<"ErrB", "Stop">> >>)}
-T_Retries == Q_Retries \cup {Retry(0, 500)}
+T_Rules   == Q_Rules \cup {RDefault, RAny("Escalate"), RTyped(<< <<"PanicNilError", "Stop">>, <<"ErrB", "Stop">> >>)}
+T_Retries == Q_Retries \cup {Retry(2, 0)}
 T_Backoff == Q_Backoff \cup {Backoff(200, 100, 0)}      \* normalised by WithExponentialBackoff to 200/200/200
 T_Sup     == {NoSup} \cup {Sup(st, r, rt, b) : st \in Strategies, r \in T_Rules, rt \in T_Retries, b \in T_Backoff}
 T_Pass    == {NoPass, TimeBased(1), CountBased(1), LongLived}
